@@ -27,6 +27,7 @@ package geom
 // a coordinate: X Y [Z] [M] separated by single spaces, optionally parenthesised
 //@ pred CoordLen(c) = FLen(c.XY.X) + 1 + FLen(c.XY.Y) + ite(HasZ(c.Type), 1 + FLen(c.Z), 0) + ite(HasM(c.Type), 1 + FLen(c.M), 0)
 //@ func appendWKTCoords
+//@   timeout 60
 //@   split coords.Type 0 1 2 3
 //@   requires coords.Type < 4
 //@   modifies dst
